@@ -269,3 +269,10 @@ def c12_dtype(ctx, case):
          "input is not modified")
 def c12_layout(ctx, case):
     _dt.layout_body(ctx, case, _dt.TABLES["C12"])
+
+
+@sub("C12.single", strategy=_dt.single_case(sorted(_dt.TABLES["C12"])), quick=200, thorough=4000,
+     doc="float32 / complex64 samples are taken for what they are: same result (to 1e-3 of the largest value) as the same values "
+         "in double precision")
+def c12_single(ctx, case):
+    _dt.single_body(ctx, case, _dt.TABLES["C12"])
